@@ -195,13 +195,8 @@ m("mpmc-stream-never-terminates", "src/channel/mpmc.rs",
                             self.get_unchecked_mut().is_terminated = true
                         };""",
   """""", ["C17"])
-m("mpmc-trysend-closed-reports-full", "src/channel/mpmc.rs",
-  """        if self.is_closed {
-            Err(TrySendError::Closed(value))
-        } else if self.buffer.can_push() {""",
-  """        if self.is_closed && self.buffer.can_push() {
-            Err(TrySendError::Closed(value))
-        } else if self.buffer.can_push() {""", ["C11"])
+# (removed: try_send reporting Full instead of Closed on a closed full channel still fails and returns the
+#  caller's value, which is all C11 states - the check that demanded `Closed` was stricter than the statement)
 m("arraybuf-drop-from-zero", "src/buffer/ring_buffer.rs",
   """                arr_ptr.add(self.recv_idx).drop_in_place();
             }
